@@ -106,6 +106,9 @@ func genC07(o *vcoq.Out, r *vcoq.Rand, tier string) error {
 	if err != nil {
 		return err
 	}
+	if err := checkOptHooks(sc); err != nil {
+		return err
+	}
 	g.metaCode, g.seedClearCode, g.removeCode, g.unionCode = "IMeta", "SClear", "IRemove", "IUnion"
 	if probeMetadata() {
 		g.metaCode = "IMetaV0"
@@ -199,7 +202,8 @@ func genC07(o *vcoq.Out, r *vcoq.Rand, tier string) error {
 	sort.Strings(never)
 	ce["monitor_targets"] = perTarget
 	ce["monitor_method_calls"] = g.methodCalls
-	ce["monitor_discovered"] = map[string]int{"source_files": sc.Files, "constructors": cov.Constructors, "types": cov.Types, "methods": cov.Methods}
+	ce["monitor_discovered"] = map[string]int{"source_files": sc.Files, "constructors": cov.Constructors, "types": cov.Types, "methods": cov.Methods,
+		"resource_option_hooks": len(sc.OptHooks)}
 	ce["monitor_methods_never_called"] = never
 	var br []string
 	for k := range g.bracketedMethods {
